@@ -462,7 +462,7 @@ func (t *freeTransport) RoundTrip(req *http.Request) (*http.Response, error) {
 		return nil, nextTransportErr()
 	}
 	return &http.Response{Status: "200 OK", StatusCode: 200, Proto: "HTTP/1.1", ProtoMajor: 1, ProtoMinor: 1,
-		Header: http.Header{}, Body: io.NopCloser(strings.NewReader("ok")), Request: req}, nil
+		Header: http.Header{}, Body: io.NopCloser(strings.NewReader("ok")), Request: req, ContentLength: nextFakeLength("ok")}, nil
 }
 
 func runStress(run *ev.Run, sc stressCase, filter string) {
